@@ -110,3 +110,44 @@ fn verif_native_window_edges_with_real_vouchers() {
     println!("VERIF-STATS {} accepted={} rejected={}", t, accepted, rejected);
     assert!(accepted >= 200 && rejected >= 1000, "vacuous: accepted={} rejected={}", accepted, rejected);
 }
+
+/// now() applies the same rule to the current clock: the provider is handed the clock reading, answers with a base
+/// time at a chosen distance from it (real voucher), and now() must accept exactly the distances inside the window
+/// and report exactly the clock reading it handed out.  The real clock is used: whatever it reads, the rule is exact
+/// at nanosecond resolution, so this cannot flake on a correct implementation.
+#[test]
+fn verif_native_now_uses_the_clock_reading() {
+    let t = "verif_native_now_uses_the_clock_reading";
+    let params = raffle::VouchingParameters::parse_or_die(VOUCH);
+    let mut accepted = 0usize;
+    for round in 0..40 {
+        for w in [-59_901i128, -59_900, -59_899, -1, 0, 1, 2_989, 2_990, 2_991] {
+            let mut seen: Option<time::OffsetDateTime> = None;
+            let r = VouchedTime::now(|clock| {
+                seen = Some(clock);
+                let ms = clock.unix_timestamp_nanos().div_euclid(1_000_000);
+                let base = (ms - w) as u64; // clock - base == w milliseconds
+                Ok((base, params.vouch(base)))
+            });
+            let clock = seen.expect("the provider is called");
+            let expect = (-59_900..=2_990).contains(&w);
+            if r.is_ok() != expect {
+                println!("VERIF-CEX {} now() with the clock at {} and a base time {} ms {} it returned {}, the rule says {}", t, clock,
+                         w.abs(), if w >= 0 { "behind" } else { "ahead of" }, if r.is_ok() { "Ok" } else { "Err" }, if expect { "Ok" } else { "Err" });
+                panic!("{}", t);
+            }
+            if let Ok(v) = r {
+                accepted += 1;
+                let local = v.get_local_time();
+                if local != PrimitiveDateTime::new(clock.date(), clock.time()) {
+                    println!("VERIF-CEX {} now() read the clock at {} but the value reports {}", t, clock, local);
+                    panic!("{}", t);
+                }
+            }
+        }
+        if round % 8 == 0 {
+            std::thread::sleep(std::time::Duration::from_micros(137));
+        }
+    }
+    assert!(accepted >= 200, "vacuous: accepted={}", accepted);
+}
